@@ -112,6 +112,16 @@ TEXT = {
             "kernel / metric / ovo / gemini / base_kernel.",
             "Path validation histories are compared to 1e-9 (+1e-6 absolute: sqrt of round-off when an MMD vanishes), "
             "everything else exactly."),
+    "C12": ("offline checker over call histories: random sequences of public calls on one estimator (incl. fits and paths "
+            "crashed by a fault injected at the optimiser hook) followed by a final fit/path compared bit for bit with a "
+            "fresh object, a refit and a clone; byte checksums of caller arrays and get_params snapshots around every call",
+            "Runtime monitoring of 540 (quick) / 9.9k (thorough) histories of length 0..6 over the 18 estimators.",
+            "Integer random_state only; histories are random, not exhaustive."),
+    "C20": ("statistical monitors on the returned (X, y) of the five generators at n=2e4..2e5 with 6.5-sigma thresholds: "
+            "label frequencies, per-label means / covariances, KS distance of whitened Student-t marginals, celeux_two "
+            "regression; determinism for equal seeds; invalid parameter sets must raise",
+            "Runtime monitoring: 80 generator calls / ~4k z-tests per quick run (640 calls thorough).",
+            "Fixed-seed statistical tests: a deviation below ~6.5 standard errors is invisible at these sample sizes."),
 }
 
 TECH_DEFAULT = "runtime monitoring: contracts/invariants at hooked call sites over generated workloads"
